@@ -254,11 +254,15 @@ fn macro_expand(
         bail!("call undefined macro {} on {}", macro_name, line);
     }
 
+    // a segment directive or .org at the very end of the body opens a segment that holds
+    // nothing yet: it is kept, what follows the call belongs there
+    let last = segments.borrow().len() - 1;
     let segments = segments
         .borrow()
         .iter()
-        .filter(|x| !x.borrow().is_empty())
-        .map(|x| x.borrow().clone())
+        .enumerate()
+        .filter(|(i, x)| !x.borrow().is_empty() || (*i == last && *i > 0))
+        .map(|(_, x)| x.borrow().clone())
         .collect();
 
     Ok(segments)
